@@ -891,3 +891,29 @@ class ModuleTranslator:
             return t
         return (f"(bind {self.E(operands[0])} (fun {tmps[0]} => "
                 f"bind {self.E(operands[1])} (fun {tmps[1]} => {chain(0)})))")
+
+
+# ---- appended for C20: f-strings whose fields are plain {expr} (no conversion,
+# no format spec) become py_fstr [parts]; everything else stays untranslatable.
+_E_before_fstring = ModuleTranslator.E
+
+
+def _E_with_fstring(self, e):
+    if isinstance(e, ast.JoinedStr):
+        parts = []
+        for v in e.values:
+            if isinstance(v, ast.Constant) and isinstance(v.value, str):
+                parts.append(f"(Ok {coq_value(v.value)})")
+            elif isinstance(v, ast.FormattedValue) and v.conversion == -1 and v.format_spec is None:
+                parts.append(self.E(v.value))
+            else:
+                bail(e, "f-string field with conversion or format spec")
+        tmps = [self.fresh('f') for _ in parts]
+        t = f"(py_fstr [{'; '.join(tmps)}])"
+        for a, tmp in reversed(list(zip(parts, tmps))):
+            t = f"(bind {a} (fun {tmp} => {t}))"
+        return t
+    return _E_before_fstring(self, e)
+
+
+ModuleTranslator.E = _E_with_fstring
